@@ -71,12 +71,22 @@ Print Assumptions C14_frame.
 (** whole-balance fallback *)
 Theorem C14_whole_balance_fallback : forall c e b t b1 ok gas g,
   ntx_body c e b t = (b1, ok, gas, g) -> b1 (ntx_from t) < gas * price e ->
+  d_fee_after_body c = true \/ b (ntx_from t) < gas * price e ->
   apply_ntx c e b t = (pay_left e b (ntx_from t), false, 0) /\
   (~ In (ntx_from t) (admins e) -> pay_left e b (ntx_from t) (ntx_from t) = 0) /\
   (NoDup (admins e) -> forall a, In a (admins e) -> a <> ntx_from t ->
      pay_left e b (ntx_from t) a = b a + b (ntx_from t) / Z.of_nat (length (admins e))).
 Proof. exact whole_balance_fallback. Qed.
 Print Assumptions C14_whole_balance_fallback.
+
+(** when only the balance left by the body is too small, exactly the fee is charged *)
+Theorem C14_fee_after_revert : forall b t b1 ok gas g e,
+  ntx_body fcfg_fixed e b t = (b1, ok, gas, g) -> b1 (ntx_from t) < gas * price e ->
+  gas * price e <= b (ntx_from t) ->
+  apply_ntx fcfg_fixed e b t =
+    (pay_admins e (bset b (ntx_from t) (b (ntx_from t) - gas * price e)) (gas * price e), false, 0).
+Proof. exact fee_after_revert. Qed.
+Print Assumptions C14_fee_after_revert.
 
 (** the boolean predicates the judge evaluates on implementation traces are the propositions above *)
 Theorem C14_conserve_b_spec : forall dom b b' g, conserve_b dom b b' g = true <-> conserve dom b b' g.
@@ -86,14 +96,14 @@ Proof. exact nonneg_b_spec. Qed.
 
 (** faithful behaviour of the unchanged code: both flags are refuted by concrete blocks *)
 Theorem C14_self_transfer_refuted :
-  exists b' oks g, apply_block {| d_self_transfer := true; d_neg_amount := false |} env3 b1000
+  exists b' oks g, apply_block {| d_self_transfer := true; d_neg_amount := false; d_fee_after_body := false |} env3 b1000
                      [NTransfer 1%N 1%N (ADec 400)] = (b', oks, g) /\
     conserve_b [1%N; 100%N; 101%N; 102%N] b1000 b' g = false.
 Proof. exact self_transfer_refuted. Qed.
 Print Assumptions C14_self_transfer_refuted.
 
 Theorem C14_neg_amount_refuted :
-  exists b' oks g, apply_block {| d_self_transfer := false; d_neg_amount := true |} env3 b1000
+  exists b' oks g, apply_block {| d_self_transfer := false; d_neg_amount := true; d_fee_after_body := false |} env3 b1000
                      [NTransfer 1%N 2%N (ADec (-30))] = (b', oks, g) /\
     oks = [true] /\ b' 1%N = 1030 /\ b' 2%N = -30 /\
     nonneg_b [1%N; 2%N; 100%N; 101%N; 102%N] b' = false.
